@@ -70,6 +70,22 @@ OUTSIDE = {
     "C08-25": "asc / ascq as read-only properties: every condition built, copied, printed or pickled by this version is unchanged; what fails is loading a pickle stream written by the previous release, and C08 quantifies over sense buffers, not over releases",
     "C12-25": "a failed re-attach s(dev) leaves the facade on the previous device instead of the new one: no property states which device a facade is on after an attach that raised (C16 speaks of the command set after an attach, C13 of 'the attached device'), both answers are defensible, so a monitor demanding one of them could raise an alarm on correct code",
     "C14-24": "a new command class and facade method (REPORT SUPPORTED OPERATION CODES) with one field laid out in the wrong byte: no existing table, function or class changes; C14 quantifies over the named table entries and the 256 operation codes, C01/C13 over the commands and the 38 facade methods the library has, and the reference has no statement about a command that does not exist in the unchanged tree",
+    "C02-27": "decode_bits converts the bytes at an offset once and reuses a wider number for a narrower field listed after it: no shipped command class lists its fields in that order, so every CDB of every command class decodes as before; layouts of any shape and order are C10's quantifier, and C10 catches it",
+    "C02-28": "the facade's writesame10/16 stop sending UNMAP / ANCHOR after the unit rejected one WRITE SAME with ILLEGAL REQUEST 24h: the command classes encode and decode as before; 'all documented arguments reach the CDB' on a facade with a history is C13's statement, and C13 catches it (application sessions against the target model)",
+    "C02-29": "the facade's read10/12/16 shorten a transfer that runs past the capacity an earlier READ CAPACITY reported: the command classes are untouched; 'all documented arguments reach the CDB' is C13's statement, and C13 catches it (arguments derived from the unit's answers)",
+    "C04-28": "the facade's getlbastatus clips the first descriptor to the block asked for after decoding: the decoder returns what the device sent; 'decodes the data-in buffer as the device left it into the result' is C13's statement, and C13 catches it (extents that contain the block asked for)",
+    "C05-28": "the iSCSI transport pads a data-out buffer to a multiple of four bytes before sending: the parameter list the command composes is unchanged; 'the buffers match the transfer the CDB announces, on both transports' is C03's statement, and C03 catches it",
+    "C05-29": "MODE SELECT pages are cut or filled to the PAGE LENGTH an earlier MODE SENSE of any device reported: every parameter dictionary on its own builds the standard layout; 'what a class encodes depends on its own arguments only' is C09's statement, and C09 catches it (builds repeated after odd and well-formed responses were decoded)",
+    "C08-27": "SCSIDevice swallows the next POWER ON / RESET unit attention after a replug and re-issues the command: conditions that are raised are built and printed as before; 'CHECK CONDITION surfaces' is C07's and 'one command through the current handle' C15's statement, and both catch it",
+    "C08-28": "with en_raw_sense the iSCSI transport returns normally (sense attached to the command) when the sense data begins with an ATA status return descriptor: C07 allows exactly that when the caller asked for raw sense (the unchanged SG_IO transport does it for every CHECK CONDITION), and C08 speaks of building and printing a condition, not of whether one is raised",
+    "C08-29": "the facade re-issues INQUIRY inside the handler of a 06h/3Fh/03h condition: conditions are built and printed as before; 'one command per facade call, the error passed on' is C13's / C07's statement, and both catch it",
+    "C09-29": "the five shipped command-set tables share one OpCode object per identical definition: commands do not share state with each other; 'one enumeration never affects another' is C18's statement and the tables' entries are C14's, and both catch it",
+    "C12-28": "writesame10/16 with a count of zero send an explicit count computed from a remembered READ CAPACITY: data written and read back agrees in every history in which the unit is not resized; 'all documented arguments reach the CDB' is C13's statement, and C13 catches it",
+    "C13-29": "SCSIDevice repeats the SG_IO call when the binding raises EINTR: each facade call still builds one command and decodes what came back; 'the binding's error reaches the caller, the binding is reached once' is C07's observation, and C07 catches it (every errno from the binding)",
+    "C14-27": "scsi_int_to_ba hands out one remembered bytearray for one- and two-byte results: table values and CDB lengths are unchanged until an application edits such an array; 'the caller owns the result of a conversion' is C10's statement, and C10 catches it",
+    "C14-29": "the facade picks the group entry of a service-action command by the service action it lists when a private table spells the entries with T10 names: every shipped table and every table built with the shipped keys gives the old result; which command a facade method sends on a caller-built table is C13's statement, and C13 catches it",
+    "C17-28": "four shipped tables share one PERSISTENT RESERVE IN / OUT OpCode object: every request on an unedited table is refused or accepted as before; shared table entries are C14's and 'one enumeration never affects another' C18's statement, and both catch it",
+    "C19-27": "SCSIDevice.close() forgets file and inode, so the first command on a *released* device re-opens the node: every lifecycle that uses a device between open and close is unchanged; use after release is outside C15's sequences (execute ... then close) and C19's requests, and the unchanged library does the same thing after a replug (a monitor demanding 'no descriptor after a command on a released device' raised an alarm on the unchanged tree and was withdrawn, section 11)",
 }
 
 
